@@ -232,7 +232,16 @@ fn run_wrap_case(i: u64, pattern: u32, k_below: i32, rng: &mut Rng, rep: &mut Re
                 let t = ldap.verif_id_table();
                 events.push(("issue-pending".into(), tok, t.0, t.1));
             } else {
-                let o = world::watchdog(invoke(&mut main, &Call::Delete { dn: format!("op={},b=now", tok) })).await.unwrap_or(Outcome::Hung);
+                // every operation kind allocates its ID the same way, binds (which other implementations treat
+                // as a fresh start of the session) included
+                let dn = format!("op={},b=now", tok);
+                let call = match tok % 5 {
+                    0 => Call::Bind { dn, pw: "secret".into() },
+                    1 => Call::Compare { dn, attr: "a".into(), val: b"v".to_vec() },
+                    2 => Call::ModDn { dn, rdn: "cn=x".into(), delold: false, newsup: None },
+                    _ => Call::Delete { dn },
+                };
+                let o = world::watchdog(invoke(&mut main, &call)).await.unwrap_or(Outcome::Hung);
                 world::settle().await;
                 let t = ldap.verif_id_table();
                 events.push((format!("issue-answered:{}", o.class()), tok, t.0, t.1));
@@ -586,7 +595,12 @@ fn run_threads_case(i: u64, rng: &mut Rng, rep: &mut Report, tiny: bool) {
                         // a locally completing operation: allocates an ID without a server round trip
                         l.abandon(MAX / 2).await.map(|_| ())
                     } else {
-                        l.delete(&format!("op={}", t * 100000 + r)).await.map(|_| ())
+                        if (t + r) % 11 == 3 {
+                            // binds are operations like any other as far as IDs go
+                            l.simple_bind(&format!("op={}", t * 100000 + r), "secret").await.map(|_| ())
+                        } else {
+                            l.delete(&format!("op={}", t * 100000 + r)).await.map(|_| ())
+                        }
                     };
                     if res.is_err() {
                         fails += 1;
